@@ -93,8 +93,8 @@ func verif_C19_dfb_DHCPv6DUID() {
 }
 
 func verif_C19_dfb_DNS() {
-	in := verifBytes("in", 24)
-	n := verifInt("n", 0, 24)
+	in := verifBytes("in", 13)
+	n := verifInt("n", 0, 13)
 	var l DNS
 	_ = l.DecodeFromBytes(in[:n], gopacket.NilDecodeFeedback)
 	verifReached("done")
@@ -893,8 +893,8 @@ func verif_C19_dfb_SFlowDatagram() {
 }
 
 func verif_C19_dfb_SIP() {
-	in := verifBytes("in", 24)
-	n := verifInt("n", 0, 24)
+	in := verifBytes("in", 12)
+	n := verifInt("n", 0, 12)
 	var l SIP
 	_ = l.DecodeFromBytes(in[:n], gopacket.NilDecodeFeedback)
 	verifReached("done")
@@ -925,8 +925,8 @@ func verif_C19_dfb_TCP() {
 }
 
 func verif_C19_dfb_TLS() {
-	in := verifBytes("in", 24)
-	n := verifInt("n", 0, 24)
+	in := verifBytes("in", 16)
+	n := verifInt("n", 0, 16)
 	var l TLS
 	_ = l.DecodeFromBytes(in[:n], gopacket.NilDecodeFeedback)
 	verifReached("done")
